@@ -48,33 +48,81 @@ theorem C11_spaces (f : Option (List Bytes)) : 0 < txSpace f ∧ txSpace f + (Fa
   unfold txSpace
   cases f <;> simp <;> decide
 
+/-- an answer reaches its request exactly once: returned at once, or buffered for it when it still is on its way -/
+def S.Answered (s : S) (tag : String) (e : Err) : Prop := Ev.ret tag e ∈ s.evs ∨ (tag, e) ∈ s.early
+
+theorem S.answer_answered (s : S) (tag : String) (e : Err) : (s.answer tag e).Answered tag e := by
+  unfold S.answer S.Answered
+  split <;> simp [S.emit]
+
+theorem S.answer_mono (s : S) (tag : String) (e : Err) (t : String) (x : Err) (h : s.Answered t x) : (s.answer tag e).Answered t x := by
+  unfold S.answer
+  unfold S.Answered at h ⊢
+  split
+  · rcases h with h | h
+    · exact Or.inl h
+    · exact Or.inr (by simp [h])
+  · rcases h with h | h
+    · exact Or.inl (by simp [S.emit, h])
+    · exact Or.inr h
+
 /-- `breakAll` (connection loss, Close): every registered request is released
-with ErrBreak — exactly one value each — and the table is empty afterwards. -/
+with ErrBreak and the table is empty afterwards. -/
 theorem C11_breakAll_releases_all (s : S) :
-    s.breakAll.txs = [] ∧ ∀ t ∈ s.txs, Ev.ret t.tag (mkErr ["break"]) ∈ s.breakAll.evs := by
+    s.breakAll.txs = [] ∧ ∀ t ∈ s.txs, s.breakAll.Answered t.tag (mkErr ["break"]) := by
   unfold S.breakAll
   refine ⟨rfl, ?_⟩
-  have key : ∀ (l : List Tx) (s0 : S), (∀ e ∈ s0.evs, e ∈ (l.foldl (fun s t => s.emit (.ret t.tag (mkErr ["break"]))) s0).evs) ∧
-      ∀ t ∈ l, Ev.ret t.tag (mkErr ["break"]) ∈ (l.foldl (fun s t => s.emit (.ret t.tag (mkErr ["break"]))) s0).evs := by
+  have key : ∀ (l : List Tx) (s0 : S),
+      (∀ t x, s0.Answered t x → (l.foldl (fun s t => s.answer t.tag (mkErr ["break"])) s0).Answered t x) ∧
+      ∀ t ∈ l, (l.foldl (fun s t => s.answer t.tag (mkErr ["break"])) s0).Answered t.tag (mkErr ["break"]) := by
     intro l
     induction l with
-    | nil => intro s0; exact ⟨fun e he => he, fun t ht => by simp at ht⟩
+    | nil => intro s0; exact ⟨fun _ _ h => h, fun t ht => by simp at ht⟩
     | cons x rest ih =>
       intro s0
       simp only [List.foldl_cons]
-      obtain ⟨k1, k2⟩ := ih (s0.emit (.ret x.tag (mkErr ["break"])))
-      refine ⟨fun e he => k1 e (by simp [S.emit, he]), fun t ht => ?_⟩
+      obtain ⟨k1, k2⟩ := ih (s0.answer x.tag (mkErr ["break"]))
+      refine ⟨fun t y h => k1 t y (S.answer_mono _ _ _ _ _ h), fun t ht => ?_⟩
       rcases List.mem_cons.mp ht with h | h
-      · subst h; exact k1 _ (by simp [S.emit])
+      · subst h; exact k1 _ _ (S.answer_answered _ _ _)
       · exact k2 t h
   intro t ht
   exact (key s.txs s).2 t ht
 
 /-- the ping slot: `releasePing` answers the call that owns the slot, and only that one -/
 theorem C11_ping_slot (s : S) (e : Err) (tag : String) (h : s.ping = some tag) :
-    (s.releasePing e).ping = none ∧ (s.releasePing e).evs = Ev.ret tag e :: s.evs := by
+    (s.releasePing e).ping = none ∧ (s.releasePing e) = ({ s with ping := none }).answer tag e := by
   unfold S.releasePing
+  simp [h, S.answer]
+  split <;> rfl
+
+/-- an answer is returned at once exactly when the request waits for it; otherwise it is kept for that request alone -/
+theorem C11_answer_cases (s : S) (tag : String) (e : Err) :
+    (s.onTheWay tag = false ∧ (s.answer tag e).evs = Ev.ret tag e :: s.evs ∧ (s.answer tag e).early = s.early) ∨
+    (s.onTheWay tag = true ∧ (s.answer tag e).evs = s.evs ∧ (s.answer tag e).early = s.early ++ [(tag, e)]) := by
+  unfold S.answer
+  cases hw : s.onTheWay tag <;> simp [S.emit]
+
+/-- a buffered answer goes to the call it was buffered for, when that call starts to wait, and to no other -/
+theorem C11_ping_early_own (s : S) (tag : String) (e : Err) (h : s.early.find? (·.1 == tag) = some (tag, e)) :
+    (s.pingWaits tag).evs = Ev.ret tag e :: s.evs ∧ (s.pingWaits tag).early = s.early.filter (·.1 != tag) := by
+  unfold S.pingWaits
   simp [h, S.emit]
+
+theorem C11_ping_early_none (s : S) (tag : String) (h : s.early.find? (·.1 == tag) = none) : s.pingWaits tag = s := by
+  unfold S.pingWaits
+  simp [h]
+
+/-- a Ping that fails or is cancelled on its way frees the slot only when the slot still is its own: the slot of
+another call (installed after an unrelated PINGRESP emptied it) stays (F7) -/
+theorem C11_ping_drop_own_only (s : S) (tag other : String) (h : s.ping = some other) (hne : other ≠ tag) :
+    (s.dropPing tag).ping = some other := by
+  unfold S.dropPing
+  simp [h, hne]
+
+theorem C11_ping_drop_own (s : S) (tag : String) (h : s.ping = some tag) : (s.dropPing tag).ping = none := by
+  unfold S.dropPing
+  simp [h]
 
 /-- a Ping while another one owns the slot is refused at once (ErrMax), it never waits -/
 theorem C11_ping_max_no_wait (s : S) (tag : String) (h : s.ping.isSome) : s.pingCall tag = (s, .ret (mkErr ["max"])) := by
